@@ -51,15 +51,27 @@ func easyjsonTables(pk *packages.Package, typeName string) (enc, dec []jsonEntry
 	for _, f := range pk.Syntax {
 		for _, d := range f.Decls {
 			fd, ok := d.(*ast.FuncDecl)
-			if !ok || fd.Recv != nil || fd.Type.Params == nil || len(fd.Type.Params.List) != 2 {
+			if !ok || fd.Type.Params == nil {
 				continue
 			}
-			p0, p1 := fd.Type.Params.List[0].Type, fd.Type.Params.List[1].Type
-			switch {
-			case isSel(p0, "jwriter", "Writer") && isT(p1, false):
-				encFn = fd
-			case isSel(p0, "jlexer", "Lexer") && isT(p1, true):
-				decFn = fd
+			if fd.Recv == nil && len(fd.Type.Params.List) == 2 {
+				p0, p1 := fd.Type.Params.List[0].Type, fd.Type.Params.List[1].Type
+				switch {
+				case isSel(p0, "jwriter", "Writer") && isT(p1, false):
+					encFn = fd
+				case isSel(p0, "jlexer", "Lexer") && isT(p1, true):
+					decFn = fd
+				}
+			}
+			// method form: func (t T) encode(out *jwriter.Writer) / func (t *T) decode(in *jlexer.Lexer)
+			if fd.Recv != nil && len(fd.Recv.List) == 1 && len(fd.Type.Params.List) == 1 {
+				rt, p0 := fd.Recv.List[0].Type, fd.Type.Params.List[0].Type
+				switch {
+				case isSel(p0, "jwriter", "Writer") && isT(rt, false) && fd.Name.Name != "MarshalEasyJSON":
+					encFn = fd
+				case isSel(p0, "jlexer", "Lexer") && isT(rt, true) && fd.Name.Name != "UnmarshalEasyJSON":
+					decFn = fd
+				}
 			}
 		}
 	}
@@ -94,7 +106,12 @@ func fieldSelectedOn(e ast.Node, base string) string {
 
 func easyjsonEncoderEntries(pk *packages.Package, fd *ast.FuncDecl) []jsonEntry {
 	outName := fd.Type.Params.List[0].Names[0].Name
-	inName := fd.Type.Params.List[1].Names[0].Name
+	inName := ""
+	if fd.Recv != nil {
+		inName = fd.Recv.List[0].Names[0].Name
+	} else {
+		inName = fd.Type.Params.List[1].Names[0].Name
+	}
 	var out []jsonEntry
 	// every block `{ const prefix string = ",\"k\":" ; ... }`, possibly wrapped in `if cond { ... }` for omitempty
 	var visit func(stmts []ast.Stmt, guard string)
@@ -192,7 +209,12 @@ func encBlock(pk *packages.Package, b *ast.BlockStmt, outName, inName string) (j
 
 func easyjsonDecoderEntries(pk *packages.Package, fd *ast.FuncDecl) []jsonEntry {
 	inName := fd.Type.Params.List[0].Names[0].Name
-	outName := fd.Type.Params.List[1].Names[0].Name
+	outName := ""
+	if fd.Recv != nil {
+		outName = fd.Recv.List[0].Names[0].Name
+	} else {
+		outName = fd.Type.Params.List[1].Names[0].Name
+	}
 	var out []jsonEntry
 	ast.Inspect(fd.Body, func(n ast.Node) bool {
 		sw, ok := n.(*ast.SwitchStmt)
